@@ -169,6 +169,11 @@ def triggers_of(program: dict, facts: dict[str, dict]) -> dict[str, list[str]]:
             _walk(st, lambda d: found.append(1) if d.get("fn") in CMP_OPS and d.get("args") and isinstance(d["args"][0], dict) and "lit" in d["args"][0] else None)
             if found:
                 hit("D51", sid)
+        if op == "mutate" and (ops & {"shift", "row_number"}):
+            found = []
+            _walk(st, lambda d: found.append(1) if d.get("fn") in ("shift", "row_number") and not d.get("arrange") else None)
+            if found:
+                hit("D9", sid)
         if op == "join" and st.get("how") in ("left", "full"):
             # every statement the null-padded input is built from (through nested joins / unions as well)
             from .campaign import ancestors
